@@ -1,6 +1,421 @@
 import PyCliffordModel.Proofs.StateLemmas
+import PyCliffordModel.Proofs.RandomLemmas
 import PyCliffordModel.Model.Torch
 /-! # Proofs/TorchLemmas — helper lemmas for C13 (vectorised torch kernels = sequential numpy kernels) -/
 namespace PC
+namespace Tc
 
+/-! ## `acq_grid`: two dot products against one signed sum -/
+
+theorem dot_sub (a b : PStr) : T.dot (T.zs a) (T.xs b) - T.dot (T.xs a) (T.zs b) = acqSum a b := by
+  induction a generalizing b with
+  | nil => simp [T.dot, T.zs, T.xs, acqSum]
+  | cons x xs ih =>
+    cases b with
+    | nil => simp [T.dot, T.zs, T.xs, acqSum]
+    | cons y ys =>
+      have := ih ys
+      simp only [T.zs, T.xs, List.map_cons, T.dot, acqSum, acqQ] at this ⊢
+      omega
+
+theorem acqGrid_eq (a b : PStr) : T.acqGrid a b = acq a b := by
+  unfold T.acqGrid acq; rw [dot_sub]
+
+/-! ## mask multiplication: `(gs + g * mask) % 2` with `mask ∈ {0,1}` -/
+
+theorem bit_mask0 (a : Bool) (c : Int) : (((b2i a + c * 0) % 2) != 0) = a := by
+  cases a <;> simp [b2i]
+
+theorem bit_mask1 (a b : Bool) : (((b2i a + b2i b * 1) % 2) != 0) = (a != b) := by
+  cases a <;> cases b <;> simp [b2i]
+
+theorem zipMask_zero (h g : PStr) (hl : h.length ≤ g.length) :
+    ((h.zip g).map fun (a, b) =>
+      (((b2i a.1 + b2i b.1 * (0 : Int)) % 2) != 0, ((b2i a.2 + b2i b.2 * (0 : Int)) % 2) != 0)) = h := by
+  induction h generalizing g with
+  | nil => simp
+  | cons x xs ih =>
+    cases g with
+    | nil => simp at hl
+    | cons y ys =>
+      rw [List.zip_cons_cons, List.map_cons, ih ys (by simpa using hl)]
+      simp only [bit_mask0]
+
+theorem zipMask_one (h g : PStr) :
+    ((h.zip g).map fun (a, b) =>
+      (((b2i a.1 + b2i b.1 * (1 : Int)) % 2) != 0, ((b2i a.2 + b2i b.2 * (1 : Int)) % 2) != 0)) = xorS h g := by
+  induction h generalizing g with
+  | nil => simp [xorS]
+  | cons x xs ih =>
+    cases g with
+    | nil => simp [xorS]
+    | cons y ys =>
+      rw [List.zip_cons_cons, List.map_cons, ih ys]
+      simp only [bit_mask1, xorS, xorQ]
+
+/-! ## `pauli_is_onsite`: `count_nonzero` of the two slices -/
+
+theorem countNonzero_nil : T.countNonzero [] = 0 := rfl
+
+theorem countNonzero_cons (q : Q) (qs : PStr) :
+    T.countNonzero (q :: qs) = (if q.1 then 1 else 0) + (if q.2 then 1 else 0) + T.countNonzero qs := by
+  obtain ⟨a, b⟩ := q
+  cases a <;> cases b <;> simp [T.countNonzero, flat] <;> omega
+
+theorem countNonzero_eq_zero (g : PStr) : T.countNonzero g = 0 ↔ ∀ j, getQ g j = (false, false) := by
+  induction g with
+  | nil => simp [countNonzero_nil, Rn.getQ_nil]
+  | cons q qs ih =>
+    rw [countNonzero_cons]
+    constructor
+    · intro h j
+      have hq : q = (false, false) := by
+        obtain ⟨a, b⟩ := q
+        cases a <;> cases b <;> simp at h ⊢
+      cases j with
+      | zero => rw [Rn.getQ_cons_zero]; exact hq
+      | succ j => rw [Rn.getQ_cons_succ]; exact (ih.1 (by omega)) j
+    · intro h
+      have h0 := h 0
+      rw [Rn.getQ_cons_zero] at h0
+      have : T.countNonzero qs = 0 := ih.2 (fun j => by have := h (j + 1); rwa [Rn.getQ_cons_succ] at this)
+      rw [this, h0]; simp
+
+theorem getQ_take (g : PStr) (k j : Nat) : getQ (g.take k) j = if j < k then getQ g j else (false, false) := by
+  unfold getQ
+  rw [List.getD_eq_getElem?_getD, List.getD_eq_getElem?_getD, List.getElem?_take]
+  split <;> simp
+
+theorem getQ_drop (g : PStr) (k j : Nat) : getQ (g.drop k) j = getQ g (k + j) := by
+  unfold getQ
+  rw [List.getD_eq_getElem?_getD, List.getD_eq_getElem?_getD, List.getElem?_drop]
+
+theorem isOnsite_iff (g : PStr) (i0 : Nat) :
+    T.isOnsite g i0 = true ↔ ∀ j, j ≠ i0 → getQ g j = (false, false) := by
+  unfold T.isOnsite
+  have key : (T.countNonzero (g.take i0) + T.countNonzero (g.drop (i0 + 1)) ≥ 1) ↔
+      ¬ (T.countNonzero (g.take i0) = 0 ∧ T.countNonzero (g.drop (i0 + 1)) = 0) := by omega
+  simp only [Bool.not_eq_true', decide_eq_false_iff_not, key, Classical.not_not,
+    countNonzero_eq_zero, getQ_take, getQ_drop]
+  constructor
+  · rintro ⟨h1, h2⟩ j hj
+    by_cases hlt : j < i0
+    · have := h1 j; rwa [if_pos hlt] at this
+    · have := h2 (j - (i0 + 1))
+      have e : i0 + 1 + (j - (i0 + 1)) = j := by omega
+      rwa [e] at this
+  · intro h
+    refine ⟨fun j => ?_, fun j => h _ (by omega)⟩
+    split
+    · exact h j (by omega)
+    · rfl
+
+theorem isOnsite_eq (g : PStr) (i0 : Nat) : T.isOnsite g i0 = isOnsite g i0 := by
+  rw [Bool.eq_iff_iff, isOnsite_iff, Rn.isOnsite_iff]
+
+/-! ## `front`: `argmax // 2` over the flat bits against the first non-trivial qubit -/
+
+theorem argmaxBits_of_some (bs : List Bool) (f : Nat) (h : bs.findIdx? id = some f) : T.argmaxBits bs = f := by
+  cases bs with
+  | nil => simp at h
+  | cons b bs => simp only [T.argmaxBits, h]
+
+theorem findIdx_flat (g : PStr) (hg : anyBit g = true) :
+    ∃ i f, g.findIdx? nontrivQ = some i ∧ (flat g).findIdx? id = some f ∧ f / 2 = i := by
+  induction g with
+  | nil => simp [anyBit] at hg
+  | cons q qs ih =>
+    obtain ⟨a, b⟩ := q
+    cases a with
+    | true => exact ⟨0, 0, by simp [List.findIdx?_cons, nontrivQ], by simp [flat, List.findIdx?_cons], rfl⟩
+    | false =>
+      cases b with
+      | true => exact ⟨0, 1, by simp [List.findIdx?_cons, nontrivQ], by simp [flat, List.findIdx?_cons], rfl⟩
+      | false =>
+        have hq : anyBit qs = true := by simpa [anyBit] using hg
+        obtain ⟨i, f, h1, h2, h3⟩ := ih hq
+        refine ⟨i + 1, f + 2, ?_, ?_, by omega⟩
+        · simp [List.findIdx?_cons, nontrivQ, h1]
+        · simp [flat, List.findIdx?_cons, h2]
+
+theorem front_eq (g : PStr) (hg : anyBit g = true) : T.front g = front g := by
+  obtain ⟨i, f, h1, h2, h3⟩ := findIdx_flat g hg
+  unfold T.front front
+  rw [argmaxBits_of_some _ f h2, h1, h3]
+
+/-! ## `condense` -/
+
+theorem mask_eq (q : Q) : decide (b2i q.1 + b2i q.2 ≥ 1) = nontrivQ q := by
+  obtain ⟨a, b⟩ := q
+  cases a <;> cases b <;> simp [b2i, nontrivQ]
+
+theorem gather_map (p : Q → Bool) (g : PStr) : gather (g.map p) g = g.filter p := by
+  induction g with
+  | nil => rfl
+  | cons q qs ih =>
+    simp only [List.map_cons, gather, ih, List.filter_cons]
+
+theorem getD_map_nontriv (g : PStr) (i : Nat) :
+    (g.map nontrivQ).getD i false = nontrivQ (g.getD i (false, false)) := by
+  rw [List.getD_eq_getElem?_getD, List.getD_eq_getElem?_getD, List.getElem?_map]
+  cases g[i]? <;> simp [nontrivQ]
+
+theorem condense_eq (g : PStr) : T.condense g = condense g := by
+  unfold T.condense condense
+  have hm : (g.map fun q => decide (b2i q.1 + b2i q.2 ≥ 1)) = g.map nontrivQ := by
+    apply List.map_congr_left; intro q _; exact mask_eq q
+  simp only [hm, gather_map, getD_map_nontriv]
+
+/-! ## strided slices: `evens`, `odds`, `interleave` -/
+
+theorem rowAt_cons_cons (a b : Pauli) (M : List Pauli) (j : Nat) : rowAt (a :: b :: M) (j + 2) = rowAt M j := by
+  simp [rowAt]
+
+theorem odds_eq (n : Nat) : ∀ M : List Pauli, M.length = 2 * n →
+    T.odds M = (List.range n).map fun i => rowAt M (2 * i + 1) := by
+  induction n with
+  | zero => intro M h; have : M = [] := List.eq_nil_of_length_eq_zero (by omega); subst this; rfl
+  | succ n ih =>
+    intro M h
+    match M, h with
+    | a :: b :: M', h =>
+      rw [T.odds, ih M' (by simp at h; omega), List.range_succ_eq_map, List.map_cons, List.map_map]
+      congr 1
+
+theorem evens_eq (n : Nat) : ∀ M : List Pauli, M.length = 2 * n →
+    T.evens M = (List.range n).map fun i => rowAt M (2 * i) := by
+  induction n with
+  | zero => intro M h; have : M = [] := List.eq_nil_of_length_eq_zero (by omega); subst this; rfl
+  | succ n ih =>
+    intro M h
+    match M, h with
+    | a :: b :: M', h =>
+      rw [T.evens, ih M' (by simp at h; omega), List.range_succ_eq_map, List.map_cons, List.map_map]
+      congr 1
+
+theorem mapToState_eq (M : List Pauli) (n : Nat) (h : M.length = 2 * n) : T.mapToState M = mapToState M := by
+  unfold T.mapToState mapToState
+  have hn : M.length / 2 = n := by omega
+  simp only [hn]
+  rw [odds_eq n M h, evens_eq n M h]
+
+theorem rowAt_cons_succ (a : Pauli) (M : List Pauli) (j : Nat) : rowAt (a :: M) (j + 1) = rowAt M j := by
+  simp [rowAt]
+
+theorem interleave_eq : ∀ (A B : List Pauli), A.length = B.length →
+    T.interleave A B = (List.range A.length).flatMap fun i => [rowAt A i, rowAt B i]
+  | [], B, _ => by cases B <;> simp [T.interleave]
+  | a :: A, [], h => by simp at h
+  | a :: A, b :: B, h => by
+    rw [T.interleave, interleave_eq A B (by simpa using h), List.length_cons, List.range_succ_eq_map,
+      List.flatMap_cons, List.flatMap_map]
+    simp only [rowAt_cons_succ]
+    simp [rowAt]
+
+theorem stateToMap_eq (T0 : List Pauli) (n : Nat) (h : T0.length = 2 * n) : T.stateToMap T0 = stateToMap T0 := by
+  unfold T.stateToMap stateToMap
+  have hn : T0.length / 2 = n := by omega
+  simp only [hn]
+  rw [interleave_eq _ _ (by simp; omega)]
+  have hl : (T0.drop n).length = n := by simp; omega
+  rw [hl]
+  apply List.flatMap_congr
+  intro i hi
+  have hi' : i < n := List.mem_range.1 hi
+  simp only [rowAt, List.getD_eq_getElem?_getD, List.getElem?_drop, List.getElem?_take, if_pos hi']
+
+/-! ## `batch_dot`: the flattened broadcast against the nested loop -/
+
+theorem getElem?_filterMap_all_some {α β : Type} (f : α → Option β) (l : List α)
+    (h : ∀ x ∈ l, (f x).isSome = true) (k : Nat) : (l.filterMap f)[k]? = (l[k]?).bind f := by
+  induction l generalizing k with
+  | nil => simp
+  | cons x xs ih =>
+    have hx := h x (by simp)
+    obtain ⟨y, hy⟩ := Option.isSome_iff_exists.1 hx
+    rw [List.filterMap_cons_some hy]
+    cases k with
+    | zero => simp [hy]
+    | succ k =>
+      simp only [List.getElem?_cons_succ]
+      exact ih (fun z hz => h z (by simp [hz])) k
+
+theorem batchDot_eq {C : Type} (cmul : C → C → C) (a b : List (Pauli × C)) :
+    T.batchDot cmul a b = batchDot cmul a b := by
+  apply List.ext_getElem?
+  intro k
+  unfold T.batchDot
+  rw [getElem?_filterMap_all_some]
+  · by_cases hk : k < a.length * b.length
+    · have hb : 0 < b.length := by
+        rcases Nat.eq_zero_or_pos b.length with h0 | h0
+        · rw [h0] at hk; simp at hk
+        · exact h0
+      have h1 : k / b.length < a.length := by
+        rw [Nat.div_lt_iff_lt_mul hb]; exact hk
+      have h2 : k % b.length < b.length := Nat.mod_lt _ hb
+      have := batchDot_getElem? cmul a b (k / b.length) (k % b.length) h1 h2
+      rw [Nat.div_add_mod'] at this
+      rw [this, List.getElem?_range hk, Option.bind_some, List.getElem?_eq_getElem h1,
+        List.getElem?_eq_getElem h2]
+      rfl
+    · rw [List.getElem?_eq_none (by simpa using hk),
+        List.getElem?_eq_none (by rw [length_batchDot]; omega)]
+      rfl
+  · intro k hk
+    have hk : k < a.length * b.length := List.mem_range.1 hk
+    have hb : 0 < b.length := by
+      rcases Nat.eq_zero_or_pos b.length with h0 | h0
+      · rw [h0] at hk; simp at hk
+      · exact h0
+    have h1 : k / b.length < a.length := by
+      rw [Nat.div_lt_iff_lt_mul hb]; exact hk
+    have h2 : k % b.length < b.length := Nat.mod_lt _ hb
+    rw [List.getElem?_eq_getElem h1, List.getElem?_eq_getElem h2]
+    rfl
+
+/-! ## `vectorizable_stabilizer_expect`: masked accumulation against the early-exit loop -/
+
+/-- one masked update of the accumulator with coefficient `c = acq * mask` -/
+def vstep (c : Int) (acc s : Pauli) : Pauli :=
+  ⟨(acc.g.zip s.g).map fun (x, y) => (((b2i x.1 + c * b2i y.1) % 2) != 0, ((b2i x.2 + c * b2i y.2) % 2) != 0),
+   (acc.p + c * (s.p + ipow acc.g s.g)) % 4⟩
+
+theorem vecExpectAux_nil (T0 : List Pauli) (obs : PStr) (N r j : Nat) (acc : Pauli) :
+    T.vecExpectAux T0 obs N r j [] acc = acc := rfl
+
+theorem vecExpectAux_cons (T0 : List Pauli) (obs : PStr) (N r j : Nat) (row : Pauli) (rest : List Pauli) (acc : Pauli) :
+    T.vecExpectAux T0 obs N r j (row :: rest) acc =
+      T.vecExpectAux T0 obs N r (j + 1) rest
+        (vstep (T.acqGrid row.g obs * (if j < N + r then 0 else 1)) acc (rowAt T0 (j - N))) := rfl
+
+theorem bit_coef0 (a : Bool) (c : Int) : (((b2i a + 0 * c) % 2) != 0) = a := by
+  cases a <;> simp [b2i]
+
+theorem bit_coef1 (a b : Bool) : (((b2i a + 1 * b2i b) % 2) != 0) = (a != b) := by
+  cases a <;> cases b <;> simp [b2i]
+
+theorem zipCoef_zero (h g : PStr) (hl : h.length ≤ g.length) :
+    ((h.zip g).map fun (x, y) =>
+      (((b2i x.1 + (0 : Int) * b2i y.1) % 2) != 0, ((b2i x.2 + (0 : Int) * b2i y.2) % 2) != 0)) = h := by
+  induction h generalizing g with
+  | nil => simp
+  | cons x xs ih =>
+    cases g with
+    | nil => simp at hl
+    | cons y ys =>
+      rw [List.zip_cons_cons, List.map_cons, ih ys (by simpa using hl)]
+      simp only [bit_coef0]
+
+theorem zipCoef_one (h g : PStr) :
+    ((h.zip g).map fun (x, y) =>
+      (((b2i x.1 + (1 : Int) * b2i y.1) % 2) != 0, ((b2i x.2 + (1 : Int) * b2i y.2) % 2) != 0)) = xorS h g := by
+  induction h generalizing g with
+  | nil => simp [xorS]
+  | cons x xs ih =>
+    cases g with
+    | nil => simp [xorS]
+    | cons y ys =>
+      rw [List.zip_cons_cons, List.map_cons, ih ys]
+      simp only [bit_coef1, xorS, xorQ]
+
+theorem vstep_zero (acc s : Pauli) (hl : acc.g.length ≤ s.g.length) (h0 : 0 ≤ acc.p) (h4 : acc.p < 4) :
+    vstep 0 acc s = acc := by
+  unfold vstep
+  rw [zipCoef_zero _ _ hl]
+  have : (acc.p + 0 * (s.p + ipow acc.g s.g)) % 4 = acc.p := by omega
+  rw [this]
+
+theorem vstep_one (acc s : Pauli) :
+    vstep 1 acc s = ⟨xorS acc.g s.g, (acc.p + s.p + ipow acc.g s.g) % 4⟩ := by
+  unfold vstep
+  rw [zipCoef_one]
+  have : (acc.p + 1 * (s.p + ipow acc.g s.g)) % 4 = (acc.p + s.p + ipow acc.g s.g) % 4 := by omega
+  rw [this]
+
+theorem foldl_mul (l : List Int) (c : Int) : l.foldl (· * ·) c = c * l.foldl (· * ·) 1 := by
+  induction l generalizing c with
+  | nil => simp
+  | cons x xs ih =>
+    simp only [List.foldl_cons]
+    rw [ih (c * x), ih (1 * x), Int.one_mul, Int.mul_assoc]
+
+/-- the product of `(acq + 1) % 2` over the first `k` rows -/
+def trivP (obs : PStr) (rows : List Pauli) (k : Nat) : Int :=
+  ((rows.take k).map fun row => (T.acqGrid row.g obs + 1) % 2).foldl (· * ·) 1
+
+theorem trivP_zero (obs : PStr) (rows : List Pauli) : trivP obs rows 0 = 1 := by simp [trivP]
+theorem trivP_nil (obs : PStr) (k : Nat) : trivP obs [] k = 1 := by simp [trivP]
+theorem trivP_cons (obs : PStr) (row : Pauli) (rest : List Pauli) (k : Nat) :
+    trivP obs (row :: rest) (k + 1) = ((acq row.g obs + 1) % 2) * trivP obs rest k := by
+  unfold trivP
+  rw [List.take_succ_cons, List.map_cons, List.foldl_cons, foldl_mul, Int.one_mul, acqGrid_eq]
+
+theorem trivP_step0 (obs : PStr) (row : Pauli) (rest : List Pauli) (m j : Nat) (h0 : acq row.g obs = 0) :
+    trivP obs (row :: rest) (m - j) = trivP obs rest (m - (j + 1)) := by
+  by_cases hj : j < m
+  · rw [show m - j = (m - (j + 1)) + 1 by omega, trivP_cons, h0]; simp
+  · rw [show m - j = 0 by omega, show m - (j + 1) = 0 by omega, trivP_zero, trivP_zero]
+
+theorem vecAux_spec (T0 : List Pauli) (obs : PStr) (N r n : Nat)
+    (hT : ∀ i, i < T0.length → (rowAt T0 i).g.length = n) :
+    ∀ (rows : List Pauli) (j : Nat) (acc : Pauli), j + rows.length ≤ T0.length → acc.g.length = n →
+      0 ≤ acc.p → acc.p < 4 →
+      (expectAux T0 obs N r j rows acc = none ∧ trivP obs rows (N + r - j) = 0) ∨
+      (expectAux T0 obs N r j rows acc = some (T.vecExpectAux T0 obs N r j rows acc) ∧
+        trivP obs rows (N + r - j) = 1) := by
+  intro rows
+  induction rows with
+  | nil =>
+    intro j acc _ _ _ _
+    exact Or.inr ⟨rfl, trivP_nil _ _⟩
+  | cons row rest ih =>
+    intro j acc hj hl h0 h4
+    have hjT : j - N < T0.length := by simp at hj; omega
+    have hs := hT (j - N) hjT
+    rw [vecExpectAux_cons, acqGrid_eq]
+    rcases acq_bit row.g obs with ha | ha
+    · have hanti := (anti_eq_false_iff row.g obs).2 ha
+      rw [ha, Int.zero_mul, vstep_zero _ _ (by omega) h0 h4, trivP_step0 _ _ _ _ _ ha]
+      have : expectAux T0 obs N r j (row :: rest) acc = expectAux T0 obs N r (j + 1) rest acc := by
+        simp [expectAux, hanti]
+      rw [this]
+      exact ih (j + 1) acc (by simp at hj; omega) hl h0 h4
+    · have hanti := (anti_iff row.g obs).2 ha
+      by_cases hlt : j < N + r
+      · left
+        refine ⟨by simp [expectAux, hanti, hlt], ?_⟩
+        rw [show N + r - j = (N + r - (j + 1)) + 1 by omega, trivP_cons, ha]; simp
+      · rw [ha, if_neg hlt, Int.mul_one, vstep_one]
+        have : expectAux T0 obs N r j (row :: rest) acc = expectAux T0 obs N r (j + 1) rest
+            ⟨xorS acc.g (rowAt T0 (j - N)).g, (acc.p + (rowAt T0 (j - N)).p + ipow acc.g (rowAt T0 (j - N)).g) % 4⟩ := by
+          simp [expectAux, hanti, hlt]
+        rw [this, show N + r - j = 0 by omega, trivP_zero]
+        have := ih (j + 1) ⟨xorS acc.g (rowAt T0 (j - N)).g, (acc.p + (rowAt T0 (j - N)).p + ipow acc.g (rowAt T0 (j - N)).g) % 4⟩
+          (by simp at hj; omega) (by rw [length_xorS_eq _ _ (by omega)]; exact hl)
+          (Int.emod_nonneg _ (by decide)) (Int.emod_lt_of_pos _ (by decide))
+        rw [show N + r - (j + 1) = 0 by omega, trivP_zero] at this
+        exact this
+
+theorem vecExpect_eq (st : State) (obs : Pauli) (n : Nat) (hs : st.rows.length = 2 * n)
+    (hrow : ∀ R ∈ st.rows, R.g.length = n) : T.vecExpect1 st obs = expect1 st obs := by
+  have hN : st.N = n := by unfold State.N; omega
+  have hT : ∀ i, i < st.rows.length → (rowAt st.rows i).g.length = n := by
+    intro i hi
+    apply hrow
+    simp [rowAt, hi]
+  have key := vecAux_spec st.rows obs.g st.N st.r n hT st.rows 0 ⟨idStr st.N, 0⟩ (by simp)
+    (by rw [length_idStr]; exact hN) (by simp) (by simp)
+  unfold T.vecExpect1 expect1
+  rcases key with ⟨h1, h2⟩ | ⟨h1, h2⟩
+  · rw [h1]
+    have : trivP obs.g st.rows (st.N + st.r - 0) = 0 := h2
+    simp only [trivP, Nat.sub_zero] at this
+    simp only [this, Int.mul_zero]
+  · rw [h1]
+    have : trivP obs.g st.rows (st.N + st.r - 0) = 1 := h2
+    simp only [trivP, Nat.sub_zero] at this
+    simp only [this, Int.mul_one]
+
+end Tc
 end PC
